@@ -106,6 +106,34 @@ def run(ctx, broken):
     r = ProgRunner(ctx, "C09")
     from props.c05 import cancel_cases
     r.run(cases(rng, ctx.tier) + cancel_cases(rng, ("range",), 1 if ctx.tier == "quick" else 8))
+    # LAYOUT-DRIVEN forging: the accumulators are whatever witnesses the implementation's gadget ACTUALLY allocates (read from a
+    # dump of the real composer), all set to the true base-4 prefixes of an out-of-range value, so that every quad relation and
+    # the closing equality hold and only the anchoring of the FIRST accumulator can reject it. (An extra leading slot, a
+    # missing zero anchor or a shifted first row lets such an assignment through.)
+    widths = ([2, 4, 6, 8, 10, 12, 14, 16, 22, 30, 38, 46, 62, 64, 126, 190, 246, 248, 250, 252, 254] if ctx.tier == "quick"
+              else list(range(2, 255, 2)))
+    specs = []
+    for w in widths:
+        for v in ((1 << w), 3 << w, (1 << (w + 2)) - 1, (1 << w) + 1 + rng.below(1 << min(w, 60))):
+            if v < R:
+                specs.append((w, v))
+    dumps = ctx.impl(["dump w %s;rangebits %d $0" % (hx(v), w) for (w, v) in specs])
+    forged = []
+    for (w, v), d in zip(specs, dumps):
+        if not d.startswith("G ") or " W " not in d:
+            continue
+        nw = len(d.split(" W ")[1].split(" P ")[0].split(","))
+        p = Prog(); x = p.w(v)
+        first = p.nwit0 + 1
+        k = nw - first
+        if k <= 0:
+            continue
+        p.tags = ["rangebits", "layout-driven-forged-accumulators", "out-of-range"]
+        p.rangebits(w, x)
+        for j in range(k):
+            p.op("setw #%d %s" % (first + j, hx((v >> (2 * (k - 1 - j))) % R)))
+        forged.append(p.case())
+    r.run(forged)
     # entry points agree (implementation-vs-property, reported separately)
     pairs = entry_point_cases(rng)
     lines = []
@@ -129,6 +157,6 @@ def run(ctx, broken):
     st["exhaustive_in_width"] = True
     st["rule"] = ("every width 0..=256 through component_range_bits (layout exhaustive), every pair count 0..=132 through "
                   "component_range, runtime seam widths sampled; values 2^w-1, 2^w, 2^w+1, r-1, 0, random, 2^(8*floor(w/8))+1; "
-                  "for out-of-range values adversarial accumulators (integer prefixes of v) via verif_set_witness. Each case: "
+                  "for out-of-range values adversarial accumulators (integer prefixes of v) via verif_set_witness, also LAYOUT-DRIVEN (every witness the real gadget allocates set to the base-4 prefixes of 2^w, 3*2^w, 2^(w+2)-1); each case: "
                   "layout/witness hashes impl vs model, prove+verify outcome vs model sysSat and vs 'v < 2^w' (Python oracle).")
     return st
